@@ -1,10 +1,12 @@
 """C11 - bounded stand-in on the real Env (never counted as proved): every nesting of up to 3 scoped changes (kwargs swap, `other` dict,
 overlay, DELETE_VAR mask, new variable) with a normal or exceptional exit, inside which an assignment to an unrelated variable is
-made; afterwards every read path (`in`, `[]`, get, detype) is as before and the assignment persists; meanwhile a second thread sees
+made and the scoped variable may be deleted or assigned-then-deleted; afterwards every read path (`in`, `[]`, get, detype) is as before and the assignment persists; meanwhile a second thread sees
 none of it."""
 import threading
 from pyvc.contract import *
 
+BODIES = ["assign OTHER", "delete X", "assign-then-delete X"]
+LOCAL_X = ("kw X", "other X", "both X", "mask X")
 FORMS = ["kw X", "kw NEW", "other X", "overlay X", "mask X", "mask-overlay X", "both X", "bad-value X"]
 
 
@@ -48,7 +50,11 @@ def scopes(tier, seed):
     try:
         for d in range(1, depth + 1):
             for forms in itertools.product(FORMS, repeat=d):
-                for raise_at in [None] + list(range(d)):
+                for raise_at, body in itertools.product([None] + list(range(d)), BODIES):
+                    if body != "assign OTHER" and ("bad-value X" in forms or not any(f in LOCAL_X for f in forms)):
+                        # deleting X where no enclosing scope holds a thread-local value for X is an ordinary, permanent deletion
+                        # of the shared variable (the overlay forms only mask the view): nothing to undo, so nothing is claimed
+                        continue
                     n += 1
                     env = Env({"X": "base", "PATH": ["/bin"]})
                     XSH.env = env
@@ -62,6 +68,13 @@ def scopes(tier, seed):
                     def nest(level):
                         if level == d:
                             env["OTHER"] = "set-inside"
+                            if body in ("assign-then-delete X",):
+                                env["X"] = "temp"
+                            if body != "assign OTHER":
+                                try:
+                                    del env["X"]      # the swapped variable is deleted inside the scope: only this thread's scoped value may go
+                                except KeyError:
+                                    pass
                             t = threading.Thread(target=other_thread)
                             t.start()
                             t.join()
@@ -91,13 +104,13 @@ def scopes(tier, seed):
                         obs = "%s: %s" % (type(e).__name__, e)
                     if obs and len(failures) < 6:
                         failures.append({"clause": "scoped changes are exactly undone, assignments to other variables persist, other threads see nothing",
-                                         "inputs": {"scopes": list(forms), "exception_leaving_level": raise_at}, "observed": obs})
+                                         "inputs": {"scopes": list(forms), "exception_leaving_level": raise_at, "body": body}, "observed": obs})
                     elif not obs and len(samples) < 3 and d == 3 and raise_at == 1:
-                        samples.append({"scopes": list(forms), "exception_leaving_level": raise_at})
+                        samples.append({"scopes": list(forms), "exception_leaving_level": raise_at, "body": body})
     finally:
         XSH.env = saved
     return {"kind": "bounded", "evaluations": n, "distinct_nontrivial": nontrivial, "failures": failures, "exhaustive": False,
-            "bound": "all nestings of <= %d scopes out of %s, exit normal or by an exception raised at each level; one observer thread at the innermost point" % (depth, FORMS),
+            "bound": "all nestings of <= %d scopes out of %s, exit normal or by an exception raised at each level; innermost body one of %s; one observer thread at the innermost point" % (depth, FORMS, BODIES),
             "domain": "real Env.swap / overlays / DELETE_VAR on a real Env; views: in, [], get, detype", "samples": samples}
 
 
